@@ -736,11 +736,18 @@ def _builtin(s, ctx, func, g, tc, A, caller, ln, last):
     if tc and tc[1] == 'IntoFuture' and tc[2] == 'into_future': return A[0]
     if E('Pin::new_unchecked') or E('Pin::new'): return Agg('Pin', 0, [A[0]])
     if E('Pin::get_mut') or E('Pin::get_unchecked_mut') or E('Pin::as_mut') or E('Pin::into_inner'): return A[0].fields[0] if last != 'as_mut' else A[0]
+    if E('Box::pin') or E('Box::into_pin'):
+        return Agg('Pin', 0, [A[0] if isinstance(A[0], Ref) else Ref(Cell(A[0], 'pinned'))])
+    if re.search(r'future::(ready::)?ready$', g): return Agg('ReadyFut', 0, [A[0]])
     if tc and tc[1] == 'Future' and tc[2] == 'poll':
-        co = deref_all(A[0].fields[0])
+        pin_ = deref_all(A[0]) if isinstance(A[0], Ref) else A[0]          # `pinned.as_mut()` hands the Pin over by reference
+        co = deref_all(pin_.fields[0])
+        if isinstance(co, Agg) and co.ty == 'Box' and co.fields: co = deref_all(co.fields[0])
+        if isinstance(co, Agg) and co.ty == 'ReadyFut': return Agg('Poll', 0, [co.fields[0]])          # std::future::ready(v)
+        if isinstance(co, Agg) and co.ty == 'Pin': co = deref_all(co.fields[0])                           # Pin<Box<dyn Future>> polled through a reference
         if not isinstance(co, Coroutine): raise Unsupported('poll of ' + type(co).__name__)
         fn = s.p.fns[co.fname]
-        r = yield from s.call_fn(ctx, fn, [A[0], A[1]]); return r
+        r = yield from s.call_fn(ctx, fn, [pin_ if pin_ is not A[0] and isinstance(pin_, Agg) and pin_.ty == 'Pin' and isinstance(pin_.fields[0], Ref) and deref_all(pin_.fields[0]) is co else A[0], A[1]]); return r
     if E('task::Context::from_waker') or E('Waker::noop'): return Opaque('cx')
     # ------------------------------------------------------------ time
     if E('SystemTime::now'): return Opaque('systime')
